@@ -34,16 +34,27 @@ variable {α β : Type}
     1. the emitted list is a *prefix* of the full positional list — so position `k` still holds
        argument `k`, and an omitted optional that is not dropped stays as an empty name (`none`);
     2. everything that was dropped is an omitted optional;
-    3. nothing is dropped below `minN`;
+    3. nothing is dropped below `minN` (a list no longer than `minN` is emitted whole);
     4. *all* omitted trailing optionals above `minN` are dropped (if more than `minN` names are
        emitted, the last one is a present value). -/
 theorem emit_slots (minN : Nat) (args : List (Arg α)) :
     emitSlots minN args <+: flatten args ∧
     (∃ k, flatten args = emitSlots minN args ++ List.replicate k none) ∧
-    (minN ≤ (flatten args).length → minN ≤ (emitSlots minN args).length) ∧
+    min minN (flatten args).length ≤ (emitSlots minN args).length ∧
     (minN < (emitSlots minN args).length →
       ∃ v, (emitSlots minN args).getLast? = some (some v)) :=
-  ⟨trim_prefix _ _, trim_dropped _ _, trim_min _ _, trim_last _ _⟩
+  ⟨trim_prefix _ _, trim_dropped _ _, trim_min' _ _, trim_last _ _⟩
+
+/-- **emit_slots_exact.** The four facts of `emit_slots` determine the emitted list: it is *the*
+    prefix of the positional list that drops only omitted optionals, keeps at least
+    `min(min_input, length)` names and, above `min_input`, does not end in an empty name. So
+    "exactly the trailing omitted optionals above `min_input` are dropped" is not an approximation. -/
+theorem emit_slots_exact (minN : Nat) (args : List (Arg α)) (ys : List (Option α))
+    (h1 : ys <+: flatten args) (h2 : ∃ k, flatten args = ys ++ List.replicate k none)
+    (h3 : min minN (flatten args).length ≤ ys.length)
+    (h4 : minN < ys.length → ∃ v, ys.getLast? = some (some v)) :
+    ys = emitSlots minN args :=
+  trim_unique minN _ ys h1 h2 h3 h4
 
 /-- Positional form of (1): whatever is emitted at index `k` is the `k`-th positional argument. -/
 theorem emit_slots_index (minN : Nat) (args : List (Arg α)) (k : Nat) (x : Option α)
